@@ -1,6 +1,7 @@
 package main
 
 import (
+	"encoding/json"
 	"flag"
 	"fmt"
 	"os"
@@ -36,6 +37,7 @@ func run(args []string) {
 	out := fs.String("out", "", "result json")
 	onlyStream := fs.String("only-stream", "", "replay: stream")
 	onlyIndex := fs.Int("only-index", -1, "replay: index")
+	replayInput := fs.String("replay-input", "", "replay: file holding the JSON input of the finding")
 	fs.Parse(args)
 	f, ok := runners[*prop]
 	if !ok {
@@ -50,8 +52,17 @@ func run(args []string) {
 		fatalf("cannot start driver: %v", err)
 	}
 	defer drv.Close()
-	ctx := &Ctx{Prop: *prop, Tier: *tier, Seed: s, KnutBin: *knut, WorkDir: *work, Drv: drv, OnlyIndex: *onlyIndex, OnlyStr: *onlyStream,
-		Classes: map[string]int{}, Tags: map[string]int{}, Extra: map[string]any{}, start: time.Now(), maxFinding: 40}
+	ctx := &Ctx{Prop: *prop, Tier: *tier, Seed: s, KnutBin: *knut, WorkDir: *work, Drv: drv, Replay: *onlyStream != "", OnlyIndex: *onlyIndex, OnlyStr: *onlyStream,
+		FindingCount: map[string]int{}, Classes: map[string]int{}, Tags: map[string]int{}, Extra: map[string]any{}, start: time.Now(), maxFinding: 15}
+	if *replayInput != "" {
+		b, err := os.ReadFile(*replayInput)
+		if err != nil {
+			fatalf("%v", err)
+		}
+		if err := json.Unmarshal(b, &ctx.ReplayInput); err != nil {
+			fatalf("%v", err)
+		}
+	}
 	if *work != "" {
 		os.MkdirAll(*work, 0o755)
 	}
